@@ -4,7 +4,7 @@
    C18_close_sqrt_real gives the reading over the reals. *)
 From Coq Require Import QArith Qabs Reals Qreals.
 From EsVerif.Common Require Import Base.
-From EsVerif.C18 Require Import Model Spec QLemmas MomProofs MedianProofs ClipProofs InterpProofs CorProofs ClipReal GsProofs BoxProofs Gen GenProofs.
+From EsVerif.C18 Require Import Model Spec QLemmas MomProofs MedianProofs ClipProofs InterpProofs CorProofs SpecStrict ClipStrict ClipReal GsProofs BoxProofs Gen GenProofs.
 Open Scope Q_scope.
 
 (* ------------------------------------------------------------------ weighted moments *)
@@ -103,6 +103,33 @@ Theorem C18_sigma_clip_fixpoint : forall x weights niter nsig,
     /\ let '(m, e2, v) := stat_def wtd sub in
        sc_mean r == m /\ sc_err2 r == e2 /\ sc_var r == v.
 Proof. exact sigma_clip_spec. Qed.
+
+(* THE CLAUSE AS STATED has two stop rules only ("until nothing changes or the iteration limit is
+   reached", SpecStrict.clip_fixpoint_strict).  C18_sigma_clip_fixpoint above describes the code,
+   which has a third exit: when a round would discard every remaining point it stops and reports
+   the last non-empty subset ("nsig too small").  Hence the stated clause is refuted ... *)
+Theorem C18_sigma_clip_fixpoint_refuted :
+  exists x niter nsig,
+    0 <= nsig /\ x <> [] /\
+    exists r, sigma_clip (V1 x) None niter nsig = Ok r
+      /\ ~ exists sub, sc_idx r = map p_idx sub
+             /\ clip_fixpoint_strict false nsig (Z.to_nat niter) (index_from 0%Z x (map (fun _ => 1) x)) sub.
+Proof. exact sigma_clip_strict_refuted. Qed.
+
+(* ... and holds for every input outside the decidable class kf_everything_clipped (the loop of the
+   code reaches its "everything clipped" exit on a non-empty subset) *)
+Theorem C18_sigma_clip_fixpoint_outside_known : forall x weights niter nsig,
+  0 <= nsig -> length (sc_weights x weights) = length x ->
+  let all := index_from 0%Z x (sc_weights x weights) in
+  let wtd := sc_weighted weights in
+  kf_everything_clipped wtd nsig (Z.to_nat niter) all = false ->
+  exists r sub,
+    sigma_clip (V1 x) (match weights with Some w => Some (V1 w) | None => None end) niter nsig = Ok r
+    /\ sc_idx r = map p_idx sub
+    /\ clip_fixpoint_strict wtd nsig (Z.to_nat niter) all sub
+    /\ let '(m, e2, v) := stat_def wtd sub in
+       sc_mean r == m /\ sc_err2 r == e2 /\ sc_var r == v.
+Proof. exact sigma_clip_strict_outside_known. Qed.
 
 (* when the next round would not discard everything, the stop rule is exactly the stated one:
    nothing changes or the iteration limit is reached *)
@@ -277,6 +304,13 @@ Proof.
   split; [exact gs_col_check_sound|]. split; [exact cov2cor_check_sound|exact mat_close_b_sound].
 Qed.
 
+(* the checker of the sigma-clipping clause as stated (evaluated by Exec.v_sigma_clip) *)
+Theorem C18_strict_checker_sound : forall weighted nsig niter all mean sdev err idx,
+  0 <= nsig ->
+  sigma_clip_strict_check weighted nsig niter all mean sdev err idx = true ->
+  sigma_clip_strict_ok weighted nsig niter all mean sdev err idx.
+Proof. exact sigma_clip_strict_check_sound. Qed.
+
 (* ------------------------------------------------------------------ tie to the source text *)
 (* Gen.v is printed from esutil/stat/util.py of the tree under check on every run
    (harness/props/c18_translate.py).  The theorems below say that the model the theorems above are
@@ -428,7 +462,12 @@ Example C18_nonvacuous :
                 /\ forallb2_eq o [-1; 2; 3; 1] = true)
   /\ (exists m, cov2cor [[4; 1]; [1; 9]] = Ok m /\ nth 1 (nth 0 m []) (0, 0) = (1, 4 * 9))
   /\ cov2cor [[4; 1]; [1; 0]] = Err EValue
-  /\ (exists o, boxcar_average [0; 1; 2; 3; 4; 5] 3 = Ok o /\ forallb2_eq o [1; 2; 3; 4; 3; 5 # 3] = true).
+  /\ (exists o, boxcar_average [0; 1; 2; 3; 4; 5] 3 = Ok o /\ forallb2_eq o [1; 2; 3; 4; 3; 5 # 3] = true)
+  (* known class: inhabited (two points, nsig 1/2), and its complement contains a run in which a point
+     exactly at 2 deviations is discarded and the loop ends because nothing changes *)
+  /\ kf_everything_clipped false (1 # 2) 4 (index_from 0%Z [-1; 1] [1; 1]) = true
+  /\ kf_everything_clipped false 2 4 (index_from 0%Z [-4; -1; -1; -1; -1; 1; 1; 1; 1; 4] [1; 1; 1; 1; 1; 1; 1; 1; 1; 1]) = false
+  /\ (exists r, sigma_clip (V1 [-4; -1; -1; -1; -1; 1; 1; 1; 1; 4]) None 4 2 = Ok r /\ sc_idx r = [1; 2; 3; 4; 5; 6; 7; 8]%Z).
 Proof.
   split; [eexists; split; [vm_compute; reflexivity|vm_compute; reflexivity]|].
   split; [eexists; split; [vm_compute; reflexivity|reflexivity]|].
@@ -441,5 +480,7 @@ Proof.
   split; [eexists; split; [vm_compute; reflexivity|vm_compute; reflexivity]|].
   split; [eexists; split; [vm_compute; reflexivity|reflexivity]|].
   split; [vm_compute; reflexivity|].
-  eexists; split; [vm_compute; reflexivity|vm_compute; reflexivity].
+  split; [eexists; split; [vm_compute; reflexivity|vm_compute; reflexivity]|].
+  split; [vm_compute; reflexivity|]. split; [vm_compute; reflexivity|].
+  eexists; split; [vm_compute; reflexivity|reflexivity].
 Qed.
